@@ -38,7 +38,7 @@ void seams_set_phase(const char *p) { g_phase = p; }
 void seams_reset_run() {
     SimSeams &s = g_seams;
     s.track = false; s.n_total = s.n_in_op = 0; s.fail_at = 0; s.fail_sustained = false; s.failed = 0; s.first_fail_site = 0;
-    s.peak_bytes = s.live_bytes; s.owner = 0; s.bad_free = 0;
+    s.peak_bytes = s.live_bytes; s.owner = 0; s.bad_free = 0; s.realloc_ks.clear();
     s.now_us = 1700000000LL * 1000000LL; s.step_us = 7; s.clock_mode = 0; s.clock_jump_us = 0; s.clock_reads = 0;
     s.clock_fault_every = 0; s.clock_faults = 0;
     s.fs_fail_mkstemp_at = s.fs_fail_write_at = s.fs_fail_close_at = 0; s.fs_write_mode = 0;
@@ -148,6 +148,7 @@ void *sim_realloc(void *old, size_t n) {
         return realloc(old, n);
     }
     uintptr_t site = (uintptr_t) __builtin_return_address(0);
+    if (old && g_seams.realloc_ks.size() < 100000) g_seams.realloc_ks.push_back(g_seams.n_total + 1);
     if (should_fail(site)) { errno = ENOMEM; return NULL; }   // old block stays valid, as with real realloc
     bool known = old ? note_free(old) : true;
     if (old && !known) g_seams.bad_free++;
